@@ -22,19 +22,34 @@ NODES = ['S', 'a', 'b', 'c', 'T']
 
 
 @st.composite
-def one_path(draw):
+def one_path(draw, mids_pool, base, scale):
     n = draw(st.integers(1, 4))
     t0 = draw(st.integers(0, 5))
     times = [t0]
     for _ in range(n - 1):
         times.append(times[-1] + draw(st.integers(1, 3)))
-    mids = [draw(st.sampled_from(['a', 'b', 'c'])) for _ in range(n - 1)]
+    if scale > 1:
+        # huge spans with near-ties: durations around 1e9..1e10 that differ by one unit
+        times = [t * scale + draw(st.integers(0, 1)) * (i > 0) for i, t in enumerate(times)]
+        times = [times[0]] + [max(times[i], times[i - 1] + 1) for i in range(1, len(times))]
+        for i in range(1, len(times)):
+            times[i] = max(times[i], times[i - 1] + 1)
+    times = [t + base for t in times]
+    mids = [draw(st.sampled_from(mids_pool)) for _ in range(n - 1)]
     seq = ['S'] + mids + ['T']
     return [[seq[i], seq[i + 1], times[i]] for i in range(n)]
 
 
+@st.composite
+def path_list(draw):
+    mids_pool = draw(st.sampled_from([['a', 'b', 'c'], ['a', 'b', 'c'], [-1, -2, 3], [0, -1, -2]]))
+    base = draw(st.sampled_from([0, 0, -2, -5, -1, 10 ** 9]))
+    scale = draw(st.sampled_from([1, 1, 1, 10 ** 9]))
+    return draw(st.lists(one_path(mids_pool, base, scale), min_size=1, max_size=8))
+
+
 def strategy(tier):
-    return st.tuples(st.lists(one_path(), min_size=1, max_size=8), st.booleans(), st.integers(0, 3)).map(
+    return st.tuples(path_list(), st.booleans(), st.integers(0, 3)).map(
         lambda x: {'paths': x[0] + ([x[0][0]] if x[2] == 0 else []), 'as_list': x[1]})
 
 
@@ -44,6 +59,11 @@ POOL = [
     [['S', 'a', 0], ['a', 'b', 1], ['b', 'T', 2]], [['S', 'a', 1], ['a', 'b', 3], ['b', 'T', 6]], [['S', 'c', 2], ['c', 'a', 3], ['a', 'T', 4]],
     [['S', 'a', 0], ['a', 'b', 1], ['b', 'c', 2], ['c', 'T', 3]], [['S', 'c', 0], ['c', 'b', 2], ['b', 'a', 5], ['a', 'T', 7]],
 ]
+POOL2 = [
+    [['S', 'T', -1]], [['S', 'T', -2]], [['S', -1, -3], [-1, 'T', -1]], [['S', -2, -3], [-2, 'T', -1]], [['S', -1, -3], [-1, 'T', -2]],
+    [['S', 'a', 0], ['a', 'T', 2000000000]], [['S', 'b', 0], ['b', 'T', 2000000001]], [['S', 'a', 0], ['a', 'b', 5], ['b', 'T', 2000000000]],
+    [['S', 'a', -2], ['a', 'T', -1]], [['S', 'a', -1], ['a', 'T', 0]],
+]
 
 
 def exhaustive(tier):
@@ -51,7 +71,11 @@ def exhaustive(tier):
         for k in (1, 2, 3, 4):
             for combo in itertools.combinations_with_replacement(range(len(POOL)), k):
                 yield {'paths': [POOL[i] for i in combo], 'as_list': (sum(combo) % 2 == 0)}
-    return {'cases': cases(), 'bound': 'every multiset of 1-4 paths from a pool of 12 paths (1819 lists)'}
+        for k in (1, 2, 3):
+            for combo in itertools.product(range(len(POOL2)), repeat=k):      # ordered: the input order matters for tie handling
+                yield {'paths': [POOL2[i] for i in combo], 'as_list': (sum(combo) % 2 == 1)}
+    return {'cases': cases(), 'bound': 'every multiset of 1-4 paths from a pool of 12 paths (1819 lists) and every ordered list of 1-3 paths from a second '
+            'pool of 10 paths with times/ids -1 and -2 and durations of 2e9 +- 1 (1110 lists)'}
 
 
 def canon(p):
@@ -82,7 +106,7 @@ def run_case(case, rec):
     L = lambda p: len(p)
     D = lambda p: p[-1][2] - p[0][2]
     A = lambda p: p[-1][2]
-    cs = sorted(inputs)
+    cs = sorted(inputs, key=repr)
     shortest = {p for p in cs if L(p) == min(map(L, cs))}
     fastest = {p for p in cs if D(p) == min(map(D, cs))}
     foremost = {p for p in cs if A(p) == min(map(A, cs))}
@@ -91,8 +115,8 @@ def run_case(case, rec):
            'shortest_fastest': {p for p in fastest if L(p) == min(map(L, fastest))}}
     for k in sorted(keys):
         got = {canon(p) for p in ann[k]}
-        rec.check('C14.' + k, got == exp[k], lambda: '%s[%r] = %r, expected %r' % (ctx, k, sorted(got), sorted(exp[k])))
-        rec.check('C14.member', got <= inputs, lambda: '%s[%r] contains paths that are not in the input: %r' % (ctx, k, sorted(got - inputs)))
+        rec.check('C14.' + k, got == exp[k], lambda: '%s[%r] = %r, expected %r' % (ctx, k, sorted(got, key=repr), sorted(exp[k], key=repr)))
+        rec.check('C14.member', got <= inputs, lambda: '%s[%r] contains paths that are not in the input: %r' % (ctx, k, sorted(got - inputs, key=repr)))
     tie = any(len(exp[k]) >= 2 for k in ('shortest', 'fastest', 'foremost'))
     differ = len({frozenset(exp[k]) for k in ('shortest', 'fastest', 'foremost')}) >= 2
     if len(inputs) < len(paths):
